@@ -191,7 +191,11 @@ SHMEM = [
 PROPS["C19"] = GUARD_EPERM + [RESTRICT_GUARD] + SHMEM
 PROPS["C08"] = [RESTRICT_GUARD]
 PROPS["C13"] = [j for j in GUARD_EPERM if j.name == "hwloc_distances_add_create"]
-PROPS["C16"] = [j for j in GUARD_EPERM if j.name == "hwloc_topology_diff_apply"]
+DIFF_ROLLBACK = Job(name="hwloc_topology_diff_apply__rollback", driver="guard.diff.drv.c", entry="h_hwloc_topology_diff_apply__rollback",
+    enforce="hwloc_topology_diff_apply/hwloc_topology_diff_apply__rollback", replace=["hwloc_apply_diff_one/verif_apply_one"], unwind=5, unwindset="__CPROVER_contracts_write_set_check_assigns_clause_inclusion.0:16", objbits=10, cost=20,
+    family="guard", fallback=False, label="bounded", min_post=5, loop_contracts=False,
+    note="lists of 0..3 entries (loops unwound 5 times), per-entry application replaced by a logging contract, any entry may be the failing one: all apply => 0, each applied once in order with the caller's flags; entry N fails => -N/EINVAL, entries 1..N-1 re-applied with APPLY_REVERSE toggled, nothing after N touched; frame = {errno, ghost log}")
+PROPS["C16"] = [j for j in GUARD_EPERM if j.name == "hwloc_topology_diff_apply"] + [DIFF_ROLLBACK]
 PROPS["C02"] = [ALLOW_GUARD]
 
 
